@@ -79,6 +79,48 @@ def entry_claim(I, O, X):
             ('hit => no box point of the line after exit', IMPLIES(hit, NOT(AND(inbox(P, b), lt(rz(0), rdot([rsub(P[i], ex[i]) for i in range(3)], d))))))]
 
 
+TINY = Fraction(1, 2 ** 100); MARGIN = Fraction(1, 2 ** 40)
+
+
+def tiny_cases(T, full):
+    """one direction component is non-zero but so small that the overflow guard |d| < TMAX*|dir| can fail (the code then treats
+    the ray as parallel to that slab).  Exact geometry is relaxed by a margin on THAT axis only: the other two components are
+    normal, so the ray parameter inside the box is at most 2^41 and the tiny component moves the point by < 2^-59."""
+    cs = []
+    others = list(itertools.product((-1, 1), repeat=2)) if full else [(1, 1), (-1, 1)]
+    for k in range(3):
+        for sg in (-1, 1):
+            for oth in others:
+                signs = list(oth); signs.insert(k, 0)
+                tag = ''.join(('t' if sg < 0 else 'T') if i == k else '-+'[(signs[i] + 1) // 2] for i in range(3))
+                def pre(I, k=k, sg=sg, signs=tuple(signs)):
+                    cs_ = mkpre(signs)(I)
+                    v = I['l'][3 + k]
+                    lo, hi = (Fraction(0), TINY) if sg > 0 else (-TINY, Fraction(0))
+                    if not R(v).conc(): cs_ += [AND(v.n >= lo, v.n <= hi), v.n != 0]
+                    elif not (lo <= v.frac() <= hi and v.frac() != 0): cs_.append(False)
+                    return cs_
+                def smp(rng, inp, k=k, sg=sg, signs=tuple(signs)):
+                    inp = sample_for(signs)(rng, inp); l = list(inp['l']); l[3 + k] = sg * Fraction(1, 2 ** 110); inp['l'] = l; return inp
+                def shrunk(p, b, k=k):
+                    return AND(*[AND(le(radd(b[i], rz(MARGIN)), p[i]), le(p[i], rsub(b[3 + i], rz(MARGIN)))) if i == k else AND(le(b[i], p[i]), le(p[i], b[3 + i])) for i in range(3)])
+                def ray(I, O, X, shrunk=shrunk):
+                    b = I['b']; pos = I['l'][:3]; d = I['l'][3:]; hit = asb(O['ret']); t = X.free('t'); ip = O['ip']
+                    return [('miss => no t >= 0 puts the point inside the box (margin 2^-40 on the tiny axis)', IMPLIES(NOT(hit), NOT(AND(le(rz(0), t), shrunk(pt(pos, d, t), b))))),
+                            ('hit => ip in the box', IMPLIES(hit, inbox(ip, b)))]
+                def ee(I, O, X, shrunk=shrunk):
+                    b = I['b']; pos = I['l'][:3]; d = I['l'][3:]; hit = asb(O['ret']); t = X.free('t')
+                    return [('miss => no real t puts the point inside the box (margin 2^-40 on the tiny axis)', IMPLIES(NOT(hit), NOT(shrunk(pt(pos, d, t), b)))),
+                            ('hit => entry and exit in the box', IMPLIES(hit, AND(inbox(O['en'], b), inbox(O['ex'], b))))]
+                kw = dict(pre=pre, T=T, sample=smp, max_paths=3000, budget=280, timeout_ms=20000, nvalid=2,
+                          bounds=BOUNDS + '; direction component %d in (0, 2^-100] resp. [-2^-100, 0): the guarded division may be skipped' % k)
+                cs.append(Case('O3.tiny_component.intersects_ip.dir%s.%s' % (tag, T), 'w_raybox_ip{T}', [In('b', 6), In('l', 6), Out('ip', 3)], ray,
+                               desc='intersects(box, ray, ip) with a denormal-like direction component (%s): a skipped (guarded) division never turns a robust hit into a miss; reported point in the box' % tag, **kw))
+                cs.append(Case('O3.tiny_component.findEntryAndExitPoints.dir%s.%s' % (tag, T), 'w_entryexit{T}', [In('l', 6), In('b', 6), Out('en', 3), Out('ex', 3)], ee,
+                               desc='findEntryAndExitPoints with a denormal-like direction component (%s): the parallel-slab fallback agrees with geometry up to the margin' % tag, **kw))
+    return cs
+
+
 def cases(T):
     cs = []
     for signs in itertools.product((-1, 0, 1), repeat=3):
@@ -98,7 +140,7 @@ def cases(T):
 def build(chk):
     e = EngC(chk, 'boxalgo')
     for T in ('d', 'f'):
-        for c in cases(T):
+        for c in cases(T) + tiny_cases(T, chk.tier == 'thorough'):
             if T == 'f': c.tier = 'thorough'      # same IR structure as double; float instantiation in the thorough tier
             e.add(c)
     chk.assumptions += ['truth of "hit" for intersects(box,ray) (2-arg form) is tied to the 3-arg form by O3 (same verdict), whose ip witnesses the hit',
